@@ -22,6 +22,7 @@ func checkC19(c *Ctx, r *Report) {
 	checkSampleGridForwarding(c, r)
 	checkSamplerRefusals(c, r)
 	checkBitMatrixGetGuard(c, r, "M-GETGUARD")
+	checkSharedStores(c, r, "common", 5) // the row of sample points is per call: two samplings do not share it (also C18)
 	r.Note("not decided: floating-point accuracy of the transform; detectors' choice of the four points")
 }
 
@@ -369,7 +370,9 @@ func checkSampleGrid(c *Ctx, r *Report) {
 				nudged = identObj(p, call.Args[1])
 			}
 		}
-		for _, call := range findCalls(p, fd.Body, func(o types.Object) bool { return isMethodNamed(o, "common", "PerspectiveTransform", "TransformPoints") }) {
+		for _, call := range findCalls(p, fd.Body, func(o types.Object) bool {
+			return isMethodNamed(o, "common", "PerspectiveTransform", "TransformPoints")
+		}) {
 			if len(call.Args) == 1 {
 				transformed = identObj(p, call.Args[0])
 			}
@@ -1120,4 +1123,44 @@ func checkSamplerRefusals(c *Ctx, r *Report) {
 		bad = fmt.Sprintf("only %d refusals found, expected the dimension test, the nudge failure and the per-pixel guard", n)
 	}
 	r.Check(bad == "", "M-SAMPLE", key, c.pos(fd.Pos()), bad)
+	// what is refused before a single point is transformed: a dimension below 1, and nothing else - in particular not a
+	// grid with more cells along one axis than the image has pixels along the same axis (the grid's axes need not lie
+	// along the image's, and a module may be smaller than a pixel)
+	dkey := "common.DefaultGridSampler.SampleGridWithTransform.refusals/dimensions"
+	r.Analysed(dkey)
+	dbad := ""
+	for _, img := range [][2]int64{{10, 10}, {30, 100}, {100, 30}} {
+		for _, dx := range []int64{-1, 0, 1, 8, 32, 150} {
+			for _, dy := range []int64{-2, 0, 1, 8, 32, 150} {
+				h := &rpf{callHook: func(rr *rpf, call *ast.CallExpr, callee types.Object) (*Val, bool) {
+					if fn, ok := callee.(*types.Func); ok {
+						switch fn.Name() {
+						case "GetWidth":
+							return vint(img[0]), true
+						case "GetHeight":
+							return vint(img[1]), true
+						}
+					}
+					return errCtorHook(rr, call, callee)
+				}}
+				env := map[types.Object]*Val{ps[0]: {K: VStruct, Ptr: true, Fields: map[string]*Val{}}, ps[1]: vint(dx), ps[2]: vint(dy), ps[3]: {K: VStruct, Ptr: true, Fields: map[string]*Val{}}}
+				fired, err := guardFires(c, fd, p, env, h, 0)
+				if err != "" {
+					dbad = "?" + err
+					break
+				}
+				if want := dx <= 0 || dy <= 0; fired != want {
+					dbad = fmt.Sprintf("a grid of %d x %d cells on an image of %d x %d pixels: refused before sampling = %v; only a dimension below 1 is refused there", dx, dy, img[0], img[1], fired)
+					break
+				}
+			}
+			if dbad != "" {
+				break
+			}
+		}
+		if dbad != "" {
+			break
+		}
+	}
+	reportFold(r, c, "M-SAMPLE", dkey, fd.Pos(), dbad)
 }
